@@ -161,6 +161,10 @@ func c13Request(rng *rand.Rand) lreq {
 	if rng.IntN(3) == 0 {
 		lr.Headers["X-Deny"] = []string{"1", "0"}[rng.IntN(2)]
 	}
+	if rng.IntN(4) == 0 {
+		// the client sends a header the pipeline is going to produce for the upstream side: only the pipeline's value counts
+		lr.Headers[[]string{"X-Out-Sub", "x-out-sub", "X-View-Method", "X-VIEW-CAPS"}[rng.IntN(4)]] = []string{"mallory", "one\ntwo"}[rng.IntN(2)]
+	}
 	switch rng.IntN(7) {
 	case 5:
 		lr.Headers["Cookie"] = "sess=s3cr3t; theme=dark; sess=second"
